@@ -16,6 +16,7 @@
 #include "explorer.hpp"
 #include "payload.hpp"
 
+#include <algorithm>
 #include <chrono>
 #include <deque>
 #include <functional>
